@@ -45,7 +45,6 @@ void probe_data_reader(const void *o, const void *c, FILE *f)
 void shape_data_reader(const void *o, FILE *f)
 {
 	const sqfs_data_reader_t *a = o;
-	fprintf(f, "rc=%zu fragused=%zu db=%d fb=%d file=%zu cmp=%zu", a->obj.refcount,
-		frag_table_used(a->frag_tbl), a->data_block != NULL, a->frag_block != NULL,
-		((sqfs_object_t *)a->file)->refcount, ((sqfs_object_t *)a->cmp)->refcount);
+	fprintf(f, "rc=%zu fragused=%zu db=%d fb=%d", a->obj.refcount,
+		frag_table_used(a->frag_tbl), a->data_block != NULL, a->frag_block != NULL);
 }
